@@ -11,6 +11,7 @@ from rv.gen import geoms
 
 ANCHORS = ("evaluation/match.py", "evaluation/affinity.py")
 THOROUGH_SHARDS = 12
+AMBIENT_TESTS = ["tests/test_evaluation"]
 _installed = False
 BRUTE_MAX = 7
 
